@@ -138,7 +138,10 @@ func (e *ExistingExtraResourcesFetcher) Fetch(ctx context.Context, rs *fnv1.Reso
 		// Fetch a list of resources.
 		list := &kunstructured.UnstructuredList{}
 		list.SetAPIVersion(rs.GetApiVersion())
-		list.SetKind(rs.GetKind())
+		// The client derives the kind of the resources to list by trimming
+		// the List suffix from the list's kind. Without the suffix it would
+		// list the wrong kind for a kind that itself ends in List.
+		list.SetKind(rs.GetKind() + "List")
 
 		if err := e.client.List(ctx, list, client.MatchingLabels(match.MatchLabels.GetLabels())); err != nil {
 			return nil, errors.Wrap(err, errListExtraResources)
